@@ -73,6 +73,8 @@ def child(repo, n, q):
             pre_ok += 1
             if out.get("reproduced") is True and out.get("failed_clause"):
                 hits.append({"seed": seed, "clause": out["failed_clause"], "detail": str(out.get("detail")) + " raised=" + str(out.get("raised"))})
+            elif out.get("raised") and not out.get("raise_declared"):
+                hits.append({"seed": seed, "clause": "no-raise", "detail": "raised=" + str(out.get("raised"))})
     print(json.dumps({"probes": n, "pre_ok": pre_ok, "errors": errs, "hits": hits}))
     return 0
 
